@@ -95,6 +95,10 @@ func (m *defaultVarMocker) doSet(value interface{}) {
 		m.captured = true
 	}
 	d := reflect.ValueOf(value)
+	if !d.IsValid() {
+		// value 为 nil 时, 设置为变量类型的零值
+		d = reflect.Zero(m.targetValue.Elem().Type())
+	}
 	m.targetValue.Elem().Set(d)
 	m.mockValue = value
 }
